@@ -494,6 +494,8 @@ func buildWith(z bool, h *hreq, r *gocql.VerifRequest) (frame []byte, outcome st
 			return nil, "rejected:namedbatch"
 		case err == gocql.ErrFrameTooBig:
 			return nil, "rejected:toobig"
+		case strings.Contains(err.Error(), "the protocol allows at most 65535"):
+			return nil, "rejected:toomany"
 		}
 		return nil, "err:" + err.Error()
 	}
